@@ -3,6 +3,8 @@ package codegen
 import (
 	"fmt"
 	"log"
+	"strconv"
+	"strings"
 
 	"github.com/HobbyOSs/gosk/pkg/ocode"
 	"github.com/HobbyOSs/gosk/pkg/variantstack"
@@ -35,7 +37,33 @@ func GenerateX86(ocodes []ocode.Ocode, ctx *CodeGenContext) []byte {
 	return ctx.MachineCode
 }
 
+// resolveLabelAddress rewrites a direct memory operand whose address is a
+// label ("[ msg ]", "WORD [ msg ]") into the numeric form ("[ 31747 ]") using
+// the symbol table of pass 1, so that the encoders see the real address
+// instead of a displacement of 0.
+func resolveLabelAddress(operand string, symTable map[string]int32) string {
+	open := strings.Index(operand, "[")
+	end := strings.LastIndex(operand, "]")
+	if open < 0 || end < open {
+		return operand
+	}
+	inner := strings.TrimSpace(operand[open+1 : end])
+	addr, ok := symTable[inner]
+	if !ok {
+		return operand
+	}
+	return operand[:open+1] + " " + strconv.FormatUint(uint64(uint32(addr)), 10) + " " + operand[end:]
+}
+
 func processOcode(oc ocode.Ocode, ctx *CodeGenContext, machineCode *[]byte) ([]byte, error) {
+	// LGDT resolves its "[label]" operand itself
+	if oc.Kind != ocode.OpLGDT && len(ctx.SymTable) > 0 {
+		resolved := make([]string, len(oc.Operands))
+		for i, operand := range oc.Operands {
+			resolved[i] = resolveLabelAddress(operand, ctx.SymTable)
+		}
+		oc.Operands = resolved
+	}
 	params := x86genParams{
 		Operands:       oc.Operands,
 		SymTable:       ctx.SymTable,
